@@ -2,6 +2,7 @@ import PharmpyModel.Core.Codec
 import PharmpyModel.C02.Lcs
 import PharmpyModel.C02.Advan
 import PharmpyModel.C02.PkConv
+import PharmpyModel.C02.Record
 open Pharmpy Pharmpy.C02
 
 def bad : Sexp := .list [.atom "err", .atom "bad-op"]
@@ -41,6 +42,28 @@ def namedMap? (x : Sexp) : Option (List (String × Nat)) := do
     | .list [.atom a, b] => do some (a, (← b.asNat?))
     | _ => none)
 
+def idx? (x : Sexp) : Option (List Idx) := do
+  let xs ← x.asList?
+  xs.mapM (fun p => match p with
+    | .list [a, b, c, d] => do some ((← a.asNat?), (← b.asNat?), (← c.asNat?), (← d.asNat?))
+    | _ => none)
+
+def idxS (ix : List Idx) : Sexp :=
+  .list (ix.map (fun e => .list [Sexp.ofNat e.1, Sexp.ofNat e.2.1, Sexp.ofNat e.2.2.1, Sexp.ofNat e.2.2.2]))
+
+def intPairs? (x : Sexp) : Option (List (Int × Nat)) := do
+  let xs ← x.asList?
+  xs.mapM (fun p => match p with
+    | .list [a, b] => do some ((← a.asInt?), (← b.asNat?))
+    | _ => none)
+
+/-- generated node `k` of statement `s`: a label no old node carries. -/
+def genNodes (lens : List (Int × Nat)) (s : Int) : List Int :=
+  (List.range ((lens.lookup s).getD 1)).map (fun (k : Nat) => (1000000 : Int) + s * 100 + (k : Int))
+
+def groupS (g : Group Int) : Sexp :=
+  .list [Sexp.ofInt g.op, .list (g.stmts.map Sexp.ofInt), Sexp.ofNat g.ni, Sexp.ofNat g.nj]
+
 def opsS (d : List (Op Int)) : Sexp := .list (d.map (fun o => .list [Sexp.ofInt o.1, Sexp.ofInt o.2]))
 
 def optBoolS : Option Bool → Sexp
@@ -57,6 +80,20 @@ def handle (req : Sexp) : Sexp :=
     match ints? o, ints? n with
     | some o, some n => .list ((matrixPy o n).map Sexp.ofNats)
     | _, _ => bad
+  | .list [.atom "groups", last, ix, o, n] =>
+    match last.asNat?, idx? ix, ints? o, ints? n with
+    | some last, some ix, some o, some n =>
+      match indexDiff last ix none (diff o n) with
+      | some gs => .list (gs.map groupS)
+      | none => .list [.atom "err", .atom "generator-fails"]
+    | _, _, _, _ => bad
+  | .list [.atom "update", ch, ix, fb, o, n, lens] =>
+    match ints? ch, idx? ix, fb.asNat?, ints? o, ints? n, intPairs? lens with
+    | some ch, some ix, some fb, some o, some n, some lens =>
+      match updateStatements (genNodes lens) ch ix fb (diff o n) with
+      | some (c, i) => .list [.list (c.map Sexp.ofInt), idxS i]
+      | none => .list [.atom "err", .atom "generator-fails"]
+    | _, _, _, _, _, _ => bad
   | .list [.atom "reserved", ss, e] =>
     match stmts? ss, Expr.ofSexp? e with
     | some ss, some e => Sexp.ofBool (usesReserved ss e)
